@@ -13,7 +13,8 @@
      object.__reduce_ex__(p) calls an overridden __reduce__.
    What the pendulum classes define and the ARGUMENT LISTS they build are data generated from /repo on every run (Gen/Reduce.v,
    tools/vlib/gens/g60_pickle.py): method resolution over the MRO, the tuple of `_getstate`/`_get_state`, the keyword list of
-   `__deepcopy__`, `__getinitargs__`, constructor parameter names.  This file interprets that data; a shape it does not know is
+   `__deepcopy__` (or, for the state-based __deepcopy__ of Interval, which elements of the state it deep-copies), `__getinitargs__`,
+   constructor parameter names.  This file interprets that data; a shape it does not know is
    `Raise E_NotImplemented` (the theorems of Props/C14.v and the correspondence then fail: fail closed).
    Constructors: datetime/date/time(...) direct constructors = fields as given, range-checked, no normalisation;
    Duration.__new__ / AbsoluteDuration.__new__ = Model/Duration.v; Interval.__new__/__init__ = interval_new below;
@@ -420,6 +421,15 @@ Definition ep_arg (r : route) (a : arg) : result arg :=
   | other => Ok other
   end.
 
+(* the elements of a state tuple whose flag is set go through f (copy.deepcopy(x, memo)), the others are passed on unchanged;
+   the generator guarantees one flag per element *)
+Fixpoint map_flagged (f : arg -> result arg) (flags : list bool) (l : list arg) : result (list arg) :=
+  match flags, l with
+  | [], [] => Ok []
+  | b :: fr, a :: r => bind (if b : bool then f a else Ok a) (fun a' => bind (map_flagged f fr r) (fun l' => Ok (a' :: l')))
+  | _, _ => Raise E_NotImplemented
+  end.
+
 Definition iv_rebuild (r : route) (v : ivv) : result ivv :=
   let t := Interval_resolve in
   if negb (resolved t "__copy__" "" && resolved t "__new__" "Interval" && resolved t "__init__" "Interval" && resolved t "__setstate__" ""
@@ -429,8 +439,16 @@ Definition iv_rebuild (r : route) (v : ivv) : result ivv :=
   | RCopy => bind (iv_state v) (fun args => interval_ctor args [])
   | RPickle _ => bind (iv_state v) (fun args => bind (map_res (ep_arg r) args) (fun args' => interval_ctor args' []))
   | RDeep =>
-      if resolved t "__deepcopy__" "Duration"
-      then (* Duration.__deepcopy__ runs on the Interval: self.__class__(days=..., ...) is Interval(days=..., ...).
+      if resolved t "__deepcopy__" "Interval"
+      then (* Interval.__deepcopy__ (since `fix: copy.deepcopy of an Interval`):  start, end, absolute = self._getstate();
+              self.__class__(copy.deepcopy(start, memo), copy.deepcopy(end, memo), absolute) - the flagged elements of the state are
+              deep-copied (DateTime.__deepcopy__ / the reduce route of a Date), the others handed over as they are *)
+           match Interval_deepcopy_state with
+           | Some flags => bind (iv_state v) (fun args => bind (map_flagged (ep_arg r) flags args) (fun args' => interval_ctor args' []))
+           | None => Raise E_NotImplemented
+           end
+      else if resolved t "__deepcopy__" "Duration"
+      then (* the code before that repair: Duration.__deepcopy__ runs on the Interval: self.__class__(days=..., ...) is Interval(days=..., ...).
               The keyword values are Interval's component properties (not modelled: they cannot raise); the call itself is
               rejected by argument binding when a keyword is not a parameter of Interval.__new__ *)
            if existsb (fun kw => negb (smem (fst kw) Interval_params)) Interval_deepcopy_kw || negb (List.length Interval_deepcopy_pos <=? List.length Interval_params)%nat
